@@ -206,8 +206,10 @@ func c05Enumerate(tier string, emit explore.Emit) {
 					}
 				}
 				emit(explore.Case{Family: "copy-cycle", Size: 30 + len(msgs),
-					Desc: func() any { return map[string]any{"statement": "COPY-in, policy " + policy, "client_sends": c13Names(msgs)} },
-					Run:  func() explore.Result { return c05RunCopy(policy, msgs) }})
+					Desc: func() any {
+						return map[string]any{"statement": "COPY-in, policy " + policy, "client_sends": c13Names(msgs)}
+					},
+					Run: func() explore.Result { return c05RunCopy(policy, msgs) }})
 			})
 		}
 	}
